@@ -742,7 +742,7 @@ class Interp:
                 return v.modname
             T = self.namedtuple_type(v)
             if T is not None and name in ('_make', '_fields', '_field_defaults'):
-                return (lambda it_: T(*list(self.iterate(it_)))) if name == '_make' else getattr(T, name)
+                return PyFunc(lambda it_: T(*list(self.iterate(it_))), '%s._make' % v.name) if name == '_make' else getattr(T, name)
             r = self.class_attr(v, name)
             if r is _MISSING:
                 raise Raised(ExcVal('AttributeError', (v.short, name)), node)
